@@ -5,15 +5,16 @@ use std::collections::{BTreeMap, BTreeSet};
 
 use crate::accept::{Acceptor, Facts};
 use crate::engine::{BuildKind, BuildResult, Run};
-use crate::interp::{Ev, INJECTED_PANIC, L};
+use crate::interp::{Ev, INJECTED_PANIC, TASK_PANIC, L};
 use crate::lang::*;
 use crate::model::{consistent_o, consistent_r, Dep, DepTarget, Eval, Shadow, Violation};
 
 #[derive(Clone, Debug, PartialEq, Eq)]
-pub enum PanicKind { Injected, Cycle, HiddenRead, HiddenWrite, Overlap, Internal }
+pub enum PanicKind { Injected, TaskPanic, Cycle, HiddenRead, HiddenWrite, Overlap, Internal }
 
 pub fn panic_kind(msg: &str) -> PanicKind {
   if msg.contains(INJECTED_PANIC) { PanicKind::Injected }
+  else if msg.contains(TASK_PANIC) { PanicKind::TaskPanic }
   else if msg.starts_with("Cyclic task dependency") { PanicKind::Cycle }
   else if msg.starts_with("Overlapping write") { PanicKind::Overlap }
   else if msg.starts_with("Hidden dependency") && msg.contains("is read by") { PanicKind::HiddenRead }
@@ -132,6 +133,9 @@ pub fn analyze(case: &Case, run: &Run) -> Analysis {
                 an.findings.push(Tagged { session: si, build: bi, tag: "c01-state", msg: format!("session {} after require(T{}): resources {:?}, from-scratch build leaves {:?}", si, t, b.state_after, model.state) });
               }
             }
+            (BuildResult::Out(o), Err(())) if matches!(model.violation, Some(Violation::TaskPanic { .. })) => {
+              an.findings.push(Tagged { session: si, build: bi, tag: "missed-task-panic", msg: format!("session {} require(T{}) returned {:?} but in a from-scratch build of the current state {:?}", si, t, o, model.violation) });
+            }
             (BuildResult::Out(o), Err(())) => {
               an.findings.push(Tagged { session: si, build: bi, tag: "missed-violation", msg: format!("session {} require(T{}) returned {:?} but a from-scratch build of the current state aborts with {:?}", si, t, o, model.violation) });
             }
@@ -174,7 +178,7 @@ pub fn analyze(case: &Case, run: &Run) -> Analysis {
       an.builds.push(BuildInfo { session: si, build: bi, kind: b.kind.clone(), executed: facts.executed.clone(), facts, panic: panic.clone(), known_before, completed_before });
       if let Some(k) = &panic {
         an.findings.push(Tagged { session: si, build: bi, tag: match k {
-          PanicKind::Injected => "panic-injected",
+          PanicKind::Injected | PanicKind::TaskPanic => "panic-injected",
           PanicKind::Internal => "panic-internal",
           _ => "panic-diagnosed",
         }, msg: format!("session {} build {} ({:?}) aborted: {}", si, bi, b.kind, match &b.result { BuildResult::Panic(m) => m.as_str(), _ => "" }) });
